@@ -517,6 +517,15 @@ def run(case):
             g1 = ev(im, bkg, rms, seed, flood, 'random')
             g2 = ev(im, bkg, rms, seed2, flood, 'random')
             _mono(o, g1, g2, im, bkg, rms, seed, seed2, flood)
+            # the statement is about signal-to-noise only: the same maps in other units (all three scaled by an exact
+            # power of two, down to 1e-18 and up to 1e+9 of the original) have exactly the same snr, ties included
+            if _ % 3 == 0:
+                k = float(2.0 ** int(rng.choice([-60, -40, -24, 30])))
+                g3 = ev(im * k, bkg * k, rms * k, seed, flood, 'random, units scaled by 2^%d' % int(np.log2(k)))
+                o.count('unit_scaled_images')
+                if g1 is not None and g3 is not None and g1 != g3:
+                    o.violate('islands_depend_on_units', {'im': _lst(im), 'bkg': _lst(bkg), 'rms': _lst(rms), 'seed': seed,
+                                                           'flood': flood, 'scale': k, 'islands': _sets(g1), 'islands_scaled': _sets(g3)})
         o.sample = {'last_shape': list(im.shape), 'seed': seed, 'flood': flood, 'seed2': seed2,
                     'islands_at_seed': None if g1 is None else len(g1), 'islands_at_seed2': None if g2 is None else len(g2)}
     elif kind == 'finder':
